@@ -30,6 +30,7 @@ pub fn run(cfg: &Cfg, rep: &mut Report) {
     for (p, f) in [("\\p{Lu}+", "u"), ("\\p{sc=Greek}", "u"), ("[\\p{L}--\\p{Lu}]", "v"), ("\\p{RGI_Emoji}", "v"), ("(?<n>k)\\k<n>", "iu"), ("ſ", "i"), ("[^\\W]", "iu"), ("\u{1F88}|\u{1F80}", "i"), ("\\w+@\\w+", ""), ("(?i:straße)|STRASSE", "u")] {
         fixed.push((p.to_string(), fl(f)));
     }
+    fixed.extend(super::diff::first_position_shapes());
     let spec = StreamSpec { n_struct: cfg.scaled(if cfg.quick() { 12_000 } else { 300_000 }), enum_nodes: if cfg.quick() { 3 } else { 4 }, enum_flags: vec![fl(""), fl("i"), fl("iu"), fl("mv")], tweak, fixed, templates: true };
     let skip: HashSet<u64> = match cfg.opt("skip_file") {
         Some(p) => std::fs::read_to_string(p).unwrap_or_default().split_whitespace().filter_map(|x| x.parse().ok()).collect(),
